@@ -730,6 +730,17 @@ impl Check for CtrlCheck {
         let hist = history_parse(replay["history"].as_str().ok_or("history missing")?)?;
         let ty = replay.get("sample_type").and_then(|x| x.as_str()).unwrap_or("f64");
         let sig = replay.get("signature").and_then(|x| x.as_str()).unwrap_or("");
+        if sig.starts_with("ctor:") {
+            // a finding of the constructor menu: run the menu again and look for the same call
+            let point = replay.get("point").and_then(|x| x.as_str()).unwrap_or("");
+            let (_, mut f, _) = crate::ctor::run::<f64>("f64");
+            f.extend(crate::ctor::run::<f32>("f32").1);
+            let hit = f.iter().find(|x| x["point"] == point && x["sig"] == sig);
+            return Ok(match hit {
+                Some(x) => (true, format!("  constructor menu: {}\n", x["detail"].as_str().unwrap_or(""))),
+                None => (false, format!("  constructor menu: {} behaves as documented\n", point)),
+            });
+        }
         let spec = spec_for(self.id, Tier::Quick, &cfg);
         let mut log = String::new();
         let mut bad = false;
